@@ -4,7 +4,7 @@
 (* that can reach 2^31 (varint values, stream ids, SETTINGS values, prefixed    *)
 (* integers) is carried in this representation.  All operators are total on     *)
 (* B8 = [1..8 -> 0..255] and never build an Int >= 2^31.                        *)
-EXTENDS Naturals, Sequences, FiniteSets
+EXTENDS Integers, Sequences, FiniteSets
 
 Byte == 0..255
 IsB8(b) == /\ Len(b) = 8 /\ \A i \in 1..8 : b[i] \in Byte
